@@ -838,9 +838,9 @@ def run(tier, seed, reg=None):
         RULE,
         "bodies {none,str,bytes,list,tuple,generator,closable iterator} over items incl. empty/non-ASCII/"
         "mixed, FileWrapper/wrap_file in direct passthrough (block 1,3,8192) x statuses int/HTTPStatus/'code reason' "
-        "over 1xx-5xx x GET/HEAD/POST x Content-Length absent/preset (header, ctor, property) x 0-2 close callbacks x "
-        "server consumption full/one chunk/none x pre-access none/get_data/calculate_content_length x entry "
-        "get_wsgi_response/__call__; 38 Location forms x autocorrect on/off x 3-4 request URLs x 3 ways of setting; "
+        "over 1xx-5xx x GET/HEAD/POST x Content-Length absent/preset (header, ctor, property) x 5 server scenarios (0-2 close callbacks, "
+        "consumption full/one chunk/none, pre-access none/get_data/calculate_content_length, entry "
+        "get_wsgi_response/__call__; quick: ctor/property presets only with the plain full-consumption scenario); 38 Location forms x autocorrect on/off x 3-4 request URLs x 3 ways of setting; "
         "37 header mutator forms x 3 keys x 10-13 values (clean, CR, LF, CRLF, int, bytes, objects) on 3 initial header "
         "lists, all single steps and all pairs (first step from a reduced set); wsgi.ClosingIterator alone over 5 "
         "iterable kinds x callbacks none/callable/list/tuple/generator of 0-3 x full/partial iteration"
